@@ -335,6 +335,7 @@ func runC09(permsFile, rowsFile string, seed int64, b *hc.Builder) {
 	}
 	c09History(stats)
 	c09KeySetReuse(stats)
+	c09Exclusion(stats)
 	c09Concurrent(stats)
 	keys := []string{}
 	for k := range vcount {
@@ -568,6 +569,91 @@ func c09Concurrent(stats map[string]int) {
 		stats["concurrent_encodings"] += n * workers * 5
 		if bad != "" {
 			violation("C09/concurrent/"+j.name, "encoding from several goroutines at once: "+bad, map[string]any{"job": j.name})
+		}
+	}
+}
+
+// c09Exclusion: writers configured with an exclusion spec are writers too -- what they emit for one value must not depend on
+// the order in which entries and fields are supplied, on repetition, or on which directive of the spec is looked at first.
+// The value: accounts -> {admin, bob, carol}, each {id, secret, tags}; the spec excludes accounts/*/id (a wildcard directive)
+// and accounts/admin/secret (a named directive on the same level); admin's tags are an EMPTY array written before other keys.
+func c09Exclusion(stats map[string]int) {
+	type acct struct {
+		name   string
+		id     int32
+		secret string
+		tags   []string
+	}
+	accts := []acct{{"admin", 1, "s1", nil}, {"bob", 2, "s2", []string{"t"}}, {"carol", 3, "s3", nil}}
+	spec := func() restlicodec.PathSpec { return restlicodec.NewPathSpec("accounts/*/id", "accounts/admin/secret") }
+	want := map[string]string{
+		"json":   `{"accounts":{"admin":{"tags":[]},"bob":{"secret":"s2","tags":["t"]},"carol":{"secret":"s3","tags":[]}}}`,
+		"header": `(accounts:(admin:(tags:List()),bob:(secret:s2,tags:List(t)),carol:(secret:s3,tags:List())))`,
+	}
+	mk := map[string]func() restlicodec.Writer{
+		"json":   func() restlicodec.Writer { return restlicodec.NewCompactJsonWriterWithExcludedFields(spec()) },
+		"header": func() restlicodec.Writer { return restlicodec.NewRor2HeaderWriterWithExcludedFields(spec()) },
+	}
+	perms3 := [][]int{{0, 1, 2}, {0, 2, 1}, {1, 0, 2}, {1, 2, 0}, {2, 0, 1}, {2, 1, 0}}
+	fields := []string{"id", "secret", "tags"}
+	for name, newW := range mk {
+		seen := map[string]int{}
+		for rep := 0; rep < 10; rep++ {
+			for _, ao := range perms3 {
+				for _, fo := range perms3 {
+					w := newW()
+					err := w.WriteMap(func(kw func(string) restlicodec.Writer) error {
+						return kw("accounts").WriteMap(func(kw func(string) restlicodec.Writer) error {
+							for _, ai := range ao {
+								a := accts[ai]
+								if err := kw(a.name).WriteMap(func(kw func(string) restlicodec.Writer) error {
+									for _, fi := range fo {
+										switch fields[fi] {
+										case "id":
+											kw("id").WriteInt32(a.id)
+										case "secret":
+											kw("secret").WriteString(a.secret)
+										case "tags":
+											if err := kw("tags").WriteArray(func(iw func() restlicodec.Writer) error {
+												for _, t := range a.tags {
+													iw().WriteString(t)
+												}
+												return nil
+											}); err != nil {
+												return err
+											}
+										}
+									}
+									return nil
+								}); err != nil {
+									return err
+								}
+							}
+							return nil
+						})
+					})
+					stats["exclusion_encodings"]++
+					if err != nil {
+						violation("C09/exclusion/"+name+"/error", err.Error(), nil)
+						continue
+					}
+					seen[w.Finalize()]++
+				}
+			}
+		}
+		if len(seen) != 1 {
+			var outs []string
+			for o := range seen {
+				outs = append(outs, o)
+			}
+			sort.Strings(outs)
+			violation("C09/exclusion/"+name+"/bytes-depend-on-supply-order-or-repetition", fmt.Sprintf("one value, one exclusion spec, %d different outputs, e.g. %s  and  %s", len(seen), outs[0], outs[len(outs)-1]), nil)
+		} else {
+			for o := range seen {
+				if o != want[name] {
+					violation("C09/exclusion/"+name+"/not-the-stripped-value", fmt.Sprintf("output %s, the value minus the excluded subtrees is %s", o, want[name]), nil)
+				}
+			}
 		}
 	}
 }
